@@ -11,8 +11,12 @@ claim("C18",
 
 
 HTTP_NOTE = ("Trusted: genhost (abstract design -> public DSL calls), mkrunner/rt (reflection glue, tap through net/http request serialisation and "
-             "re-parsing), the concretisation/projection functions in vlib/httpgen.py, encoding/json, go build. TLC enumerates one-attribute method shapes "
-             "exhaustively (quick: a seeded 20-25% sample of the shapes, thorough: all of them plus simulated two-attribute methods); "
+             "re-parsing; removal of one body member on the wire for the `nofield` values), the concretisation/projection functions in vlib/httpgen.py, "
+             "encoding/json, go build. TLC enumerates one-attribute method shapes exhaustively over the envelope of lib/Values.tla (kinds incl. sized "
+             "numbers, bytes, any x path/query/header/cookie/body x required/optional/default/transport-only-required x 15 rules x 20 nestings incl. query "
+             "maps, MapParams, whole payloads, defaulted collections; quick: a seeded stratified sample of the shapes, thorough: all of them) plus seeded "
+             "two-attribute methods (same location, twins sharing a type, parameter + cookie, two tagged responses, named payload types) whose oracle and "
+             "mechanism TLC recomputes; 
              "verdicts come only from the behaviour of the real generated code.")
 
 claim("C01",
@@ -54,8 +58,10 @@ claim("C19",
       "TLC exhaustive model checking + vectors replayed on real code + TLC trace validation", "DESIGN.md 6 (C19)")
 
 claim("C05",
-      "ErrorMap.tla (declared error tables at method/service/API level with shared statuses, ErrorResult and user types, declared flags; service outcomes: declared, "
-      "wrapped, undeclared ServiceError x 8 flag combinations, plain error; four request decode failures) is model-checked exhaustively; every case runs through "
+      "ErrorMap.tla (tables of 1-3 errors per method, each with declaration levels method/service/API and HTTP response levels method/service/API - the 32 "
+      "placements goa accepts, with the resolution order of HTTPServiceExpr/HTTPEndpointExpr.Prepare modelled -, shared or own statuses, ErrorResult and user "
+      "types, declared flags, declaration order; service outcomes: every declared error plain and wrapped, undeclared ServiceError x 8 flag combinations, plain "
+      "error; four request decode failures) is model-checked (all 7200 ordered pairs; a stratified cut of them and sampled triples go through real code); every case runs through "
       "the real generated server and client and status, goa-error header, body, WriteHeader count and the client's error are compared with the model.",
       HTTP_NOTE + " What the client returns for an undeclared error is not constrained (the statement does not fix it).",
       "TLC exhaustive model checking + TLC-generated cases replayed on generated code", "DESIGN.md 6 (C05)")
@@ -66,8 +72,9 @@ claim("C06",
       HTTP_NOTE + " The exact order of callbacks is not constrained, only which may be called and that a grant is witnessed by a fully checked requirement.",
       "TLC exhaustive model checking + TLC-generated cases replayed on generated code", "DESIGN.md 6 (C06)")
 claim("C08",
-      "Views.tla (catalogue of result-type graphs: flat, nested with per-attribute view overrides, collection, recursive; views chosen by the service or fixed in "
-      "the design; undefined view label) is model-checked exhaustively; every case runs through the real generated server and client; body keys on the wire "
+      "Views.tla (catalogue of result-type graphs G1-G11: flat, nested with per-attribute view overrides, one type used twice, lookalike types, collections, nested "
+      "collections, recursive; each taken under view declaration order first/last/implicit x required-in-view variants; values with at most one invalid validated "
+      "attribute; views chosen by the service or fixed in the design; undefined view label) is model-checked exhaustively; every case runs through the real generated server and client; body keys on the wire "
       "(recursively), goa-view header and the fields set on the client's result are compared with the model's projection.",
       HTTP_NOTE + " The recursive graph G4 is set aside while its generated code does not compile (a C01 finding).",
       "TLC exhaustive model checking + TLC-generated cases replayed on generated code", "DESIGN.md 6 (C08)")
@@ -90,9 +97,12 @@ claim("C16",
       "TLC exhaustive model checking + vectors replayed on real code + TLC trace validation", "DESIGN.md 6 (C16)")
 
 claim("C20",
-      "Concurrency.tla (K request processes x handler regions pre/decode/service/encode x shared objects with their locks; NoConflict, Echo, Termination) is "
-      "model-checked for every interleaving of gate passes (K=2 quick, K=3 thorough); every schedule TLC emits is replayed on the real generated server with K "
-      "goroutines gated at the decoder factory, the stub service and the encoder factory and released in the emitted order under the race detector; the "
+      "Concurrency.tla (K request processes x handler regions pre/decode/service/encode x shared objects with their locks; a request = kind x content-type class x "
+      "body kind; NoConflict, Echo - what a handler read and what its caller got come from that request's own payload -, Termination) and Sampler.tla (the adaptive "
+      "sampler's adjustment block is a critical section) are model-checked for every interleaving of gate passes (K=2 quick, K=3 thorough), free and serial (one "
+      "request held at a gate while another runs start to finish); every schedule TLC emits is replayed on the real generated server (behind the stateful "
+      "middlewares: RequestID, Trace with adaptive and fixed samplers, Debug, Log) with K goroutines gated at the decoder factory, the stub service and the "
+      "encoder factory and released in the emitted order under the race detector, with raw clients choosing Content-Type and Accept per request; the "
       "replayed schedules are validated by TLC as traces (gates in handler order, race reports = 0, echo); plus 32-64 goroutine load on one mounted server and "
       "direct concurrent use of ErrorEncoder, ResponseEncoder, muxer, ValidatePattern, samplers, MergeErrors.",
       "Trusted: the Go race detector (race reports are an observed fact; gates add no happens-before edge between the released segments), rt scheduler, the "
@@ -122,8 +132,9 @@ claim("C11",
 
 claim("C10",
       "GRPCTransport.tla (proto field table, rpc table, descriptor verdict; ClientEncode -> ServerDecode -> Validate -> Invoke -> ServerEncode -> ClientDecode "
-      "with message / metadata / header / trailer locations; lib/Values.tla value classes and rules; five named deviations) is model-checked exhaustively for "
-      "the request, result and well-formedness families; every case is generated by the real gRPC generators with a protoc stand-in (harness/cmd/fakeprotoc: "
+      "with message / metadata / header / trailer locations; lib/Values.tla value classes and rules; nestings compose along a path over alias/elem/mapkey/mapval/"
+      "nested/oneof; explicit Message() mappings and raw requests that omit a field; named deviations) is model-checked exhaustively for "
+      "the request, result, explicit-message and well-formedness families; every case is generated by the real gRPC generators with a protoc stand-in (harness/cmd/fakeprotoc: "
       "own proto3 parser + protodesc.NewFile as independent well-formedness oracle + stand-in pb.go), compiled, and executed in process through the real "
       "generated client endpoint and server handler against a recording stub; recorded events are judged against the predictions and validated by TLC as traces.",
       "Trusted: fakeprotoc (parser, descriptor construction, stand-in structs: not real protobuf messages, no wire serialisation), protodesc as proto3 oracle, "
@@ -133,8 +144,8 @@ claim("C10",
 
 claim("C13",
       "TypeGraph.tla (heap of type nodes with Go-slice-like meta buffers; Build, DoHash with the threaded object memo, DoDup with the user-type memo, 11 mutation "
-      "operations; equality specified by construction through transformations copy/perm/rev/deco/uname/tag vs ren/add/del/prim/flip and the documented rule "
-      "table over the 8 flag combinations) is model-checked exhaustively for graphs with <=3 (quick) / <=4 (thorough) non-primitive nodes with three deviation "
+      "operations incl. in-place writes; equality specified by construction through transformations copy/perm/rev/deco/uname/tag vs ren/add/del/prim/flip and the "
+      "sharing-changing unshare/redir/hollow over graphs with DAG sharing, and the documented rule table over the 8 flag combinations) is model-checked exhaustively for graphs with <=3 (quick) / <=4 (thorough) non-primitive nodes with three deviation "
       "guards; every emitted case is built with the public expr constructors and judged on the real expr.Dup/DupAtt/Hash/Equal (20 repetitions, plus a fresh "
       "process digest comparison), the original is snapshotted before and after mutating the copy; random graphs are validated by TLC as traces.",
       "Trusted: the structural walker that projects real expr graphs onto the model heap (harness/drivers/expr). Out of the model: views, bases, references, "
@@ -162,7 +173,8 @@ claim("C14",
 claim("C12",
       "DSLProgram.tla (a DSL program as a tree of calls executed by a pushdown automaton over evaluation contexts; a table of 120 public DSL functions with their "
       "documented contexts and argument shapes that steers generation toward deep contexts and toward misplaced, ill-typed, nil, repeated and dangling calls; "
-      "declarative Dangling predicate over 8 kinds of reference) is model-checked with 26 deviation guards; TLC enumerates (depth-bounded) and simulates programs, "
+      "declarative Dangling predicate over 9 kinds of reference incl. security scopes; recursive types through attribute/array/map are part of the program "
+      "space) is model-checked with 33 deviation guards; TLC enumerates (depth-bounded) and simulates programs, "
       "harness/cmd/dslhost maps every abstract call to a real call of the dsl package, runs eval.RunDSL in child processes (panic / timeout isolated and re-confirmed "
       "alone) and the outcome (accepted / rejected with located errors / crashed) of every program is validated by TLC as a trace that recomputes Dangling itself; "
       "accepted programs are handed to gen + go build.",
